@@ -5,5 +5,5 @@ from . import c08
 
 
 def check(ctx):
-    return SC.run(ctx, "C09", ["Oq3.Props.C09"], [OB], c08.progs(ctx),
+    return SC.run(ctx, "C09", ["Oq3.Props.C09", "Oq3.Props.C09StdGates"], [OB], c08.progs(ctx),
                   "generated programs + declarations of every form x widths across [1, 2^33] (literal and identifier designators), gate/def signatures, stdgates; oracle: declared kind/const/width per symbol, designator handling, gate and def signatures and parameter bindings, gates() listing")
